@@ -101,7 +101,48 @@ fn run_xlong(rec: &mut Rec, d: &Value) {
     }
 }
 
+/// very wide strokes on long lines (width x length beyond 2^30): far too many pixels to enumerate, so a PREFIX of
+/// `pixels()` is pulled - the stroke contains the thin line, so it has at least as many pixels as the thin line (or
+/// as the prefix asks for), and no pixel of the prefix repeats
+fn run_hugestroke(rec: &mut Rec, d: &Value) {
+    let (s, e, w) = (pt_from(&d["s"]), pt_from(&d["e"]), i(&d["w"]) as u32);
+    rec.begin(d.clone());
+    const N: usize = 200_000;
+    let r = catch(|| {
+        let style = PrimitiveStyle::with_stroke(BinaryColor::On, w);
+        let mut seen = std::collections::HashSet::new();
+        let mut dup = 0usize;
+        let mut n = 0usize;
+        let mut first = None;
+        for Pixel(p, _) in Line::new(s, e).into_styled(style).pixels().take(N) {
+            if first.is_none() {
+                first = Some(p);
+            }
+            if !seen.insert((p.x, p.y)) {
+                dup += 1;
+            }
+            n += 1;
+        }
+        (n, dup, first)
+    });
+    match r {
+        Ok((n, dup, first)) => {
+            rec.nontrivial();
+            let thin = (e.x as i64 - s.x as i64).abs().max((e.y as i64 - s.y as i64).abs()) + 1;
+            rec.ev("hugestroke", json!({"s": pt_json(s), "e": pt_json(e), "w": w, "asked": N, "thin": thin, "n": n, "dup": dup,
+                "first": first.map(pt_json).unwrap_or(json!([]))}));
+        }
+        Err(p) => {
+            rec.note("panicked_cases");
+            rec.ev("panic", json!({"msg": p.msg, "loc": p.loc}));
+        }
+    }
+}
+
 fn run_case(rec: &mut Rec, d: &Value) {
+    if d["k"].as_str() == Some("hugestroke") {
+        return run_hugestroke(rec, d);
+    }
     if d["k"].as_str() == Some("longline") {
         return run_long(rec, d);
     }
@@ -241,6 +282,11 @@ fn main() {
         };
         for (s, e) in xl {
             run_case(&mut rec, &json!({"k":"xlongline","s":[s.0, s.1],"e":[e.0, e.1]}));
+        }
+        // stroke width x length around and beyond 2^30
+        for (s, e, w) in [((0, 0), (40_000, 30_000), 25_000u32), ((3, -5), (3, 69_995), 16_000), ((0, 0), (1_200_000, 5), 1_000),
+                          ((0, 0), (30_000, 100), 20_000), ((-9, 9), (-40_009, -29_991), 30_000)] {
+            run_case(&mut rec, &json!({"k":"hugestroke","s":[s.0, s.1],"e":[e.0, e.1],"w":w}));
         }
     }
     let mut made = 0;
